@@ -1041,7 +1041,7 @@ class Engine(Interp):
             if a.zone.sat:
                 nf = slots.plus(a, fr, 1)
                 self.store(a, ptr, ('sliceit', mid, nf, bk, mut))
-                a.log('adv', mid, fr)
+                a.log('adv', mid, fr, 'front')
                 out.append(('ret', a, some(('ref', mut, ('mu', mid, fr)))))
             st.zone.add_le(bk, fr)
             if st.zone.sat:
